@@ -228,12 +228,20 @@ fn handle_alloc_error_stub(_l: std::alloc::Layout) -> ! {
 fn slice_error_fail_stub(_s: &str, _begin: usize, _end: usize) -> ! {
     panic!("str slice not on a char boundary / out of range")
 }
+/// `format!` is only used by the code under test to build the *message* of an `Err`; the harnesses
+/// below never look at messages.  CBMC cannot prune the `Err` arm by constant propagation (enum
+/// discriminants go through byte extracts) and `fmt` does not finish, so the message is abstracted
+/// to the empty string.  Trusted: `Display for &'static str` does not panic.
+fn format_stub(_a: std::fmt::Arguments<'_>) -> String {
+    String::new()
+}
 
 #[kani::proof]
 #[kani::unwind(5)]
 #[kani::stub(core::str::count::do_count_chars, never_do_count_chars)]
 #[kani::stub(alloc::raw_vec::handle_error, alloc_error_stub)]
 #[kani::stub(std::alloc::handle_alloc_error, handle_alloc_error_stub)]
+#[kani::stub(std::fmt::format, format_stub)]
 fn string_reverse_le3() {
     let (b, n) = any_str_le3();
     let v = mk_string(&b, n, false);
@@ -255,6 +263,7 @@ fn string_reverse_le3() {
 #[kani::stub(alloc::raw_vec::handle_error, alloc_error_stub)]
 #[kani::stub(std::alloc::handle_alloc_error, handle_alloc_error_stub)]
 #[kani::stub(core::str::slice_error_fail, slice_error_fail_stub)]
+#[kani::stub(std::fmt::format, format_stub)]
 fn string_iter_le3() {
     use crate::vm::for_loop::create_for_loop_iterator;
     let (b, n) = any_str_le3();
